@@ -309,16 +309,23 @@ class SolverMixin:
         if len(self.span) == 0:
             raise SolutionError('Object `span` is empty: No periods to solve')
 
-        # Default start and end periods
+        # Default start and end periods: take these by position (rather than
+        # by looking up the labels at those positions) so that repeated labels
+        # in `span` can't redirect the defaults to an earlier period
+        positions = range(len(self.span))
+
         if start is None:
-            start = self.span[self.lags]
+            start_location = positions[self.lags]
+        else:
+            start_location = self._locate_period_in_span(start)
+
         if end is None:
-            end = self.span[-1 - self.leads]
+            end_location = positions[-1 - self.leads]
+        else:
+            end_location = self._locate_period_in_span(end)
 
         # Convert to an integer range
-        indexes = range(
-            self._locate_period_in_span(start), self._locate_period_in_span(end) + 1
-        )
+        indexes = range(start_location, end_location + 1)
 
         return PeriodIter(indexes, self.span[indexes.start : indexes.stop])
 
